@@ -51,6 +51,9 @@ EXPLANATION += ' R1: which per-atom arrays `natom` consults is found by evaluati
 # --- metadata added for batch 9
 EXPLANATION += " R1 also: an assignment hook (on_setattr) of a field may only consist of attrs' own convert / validate steps. R2 also: rows with generalized orbitals (the getters answer what the orbitals answer, assigning nelec / spinpol raises TypeError)."
 # --- end metadata batch 9
+# --- metadata added after the round-5 refactoring twins
+EXPLANATION += ' The typestate interpreter unrolls a loop over a local bound to a literal sequence.'
+# --- end metadata round-5 twins
 
 
 def run(ctx):
